@@ -25,7 +25,7 @@ REAL = ["rpyc.core.protocol.Connection (dispatch, boxing, _send, serve)", "rpyc.
         "rpyc.core.brine", "rpyc.core.vinegar", "rpyc.core.channel", "rpyc.core.stream.SocketStream"]
 STUB = ["sockets/poll/time/locks (simulator)", "requester in the 'ref' configuration = scripted reference peer (ref/peer.py)"]
 ASSUMPTIONS = ["in-memory kernel fidelity", "reference codec written independently from the published format"]
-PROBES = ["c08:unencodable-result", "c08:undecodable-request", "c08:outstanding>=4"]
+PROBES = ["c08:unencodable-result", "c08:undecodable-request", "c08:outstanding>=4", "c08:callback-only-request"]
 
 BAD_TEXT = "\udc80abc"
 
@@ -208,7 +208,28 @@ def run_one(choices, params):
                     raise core.Violation("misdelivered", "tok=%d what=%s got %r" % (t, what, r))
 
             aop = rpyc.async_(root.op)
+            fired = []          # (tok, what) of asynchronous requests whose result handle the requester did not keep
+            delivered = []      # (tok, what, result) as handed to their completion callbacks
+
+            def mk_done(t, what):
+                def done(res):
+                    delivered.append((t, what, res))
+                return done
             for _ in range(nops):
+                if w.flip(120):
+                    # fire with a completion callback and drop the handle: the response must still reach that callback
+                    tok[0] += 1
+                    what = w.pick(OUTCOMES[:-1])
+                    info["nreq"] += 1
+                    if what in BAD or what.startswith("raise"):
+                        info["failing"] += 1
+                    try:
+                        aop(tok[0], what).add_callback(mk_done(tok[0], what))
+                    except EOFError as e:
+                        raise core.Violation("connection-lost", "async request could not be sent: %s" % e)
+                    fired.append((tok[0], what))
+                    sim.count("c08:callback-only-request")
+                    continue
                 kind = w.weighted((4, 5, 3, 1))       # sync, async, collect, gc
                 if kind == 2 and not pending:
                     kind = 0
@@ -248,6 +269,15 @@ def run_one(choices, params):
             # the connection must still be usable
             tok[0] += 1
             verify(tok[0], "value", lambda: root.op(tok[0], "value"))
+            # (that round trip came after every fired request: their responses have been processed by now)
+            got = sorted((t, wh) for t, wh, _ in delivered)
+            if got != sorted(fired):
+                missing = sorted(set(fired) - set(got))
+                raise core.Violation("response-not-delivered" if missing else "response-delivered-twice",
+                                     "requests fired with a completion callback %r, callbacks ran for %r" % (sorted(fired), got))
+            for t, wh, res in delivered:
+                verify(t, wh, lambda res=res: res.value)
+            del delivered[:]
             for t, n in counts.items():
                 if n != 1:
                     raise core.Violation("handler-ran-twice", "handler for tok %r ran %d times" % (t, n))
@@ -255,14 +285,20 @@ def run_one(choices, params):
                 raise core.Violation("connection-lost", "a connection closed during the stream")
             # let in-flight release traffic settle, then audit the ledger
             del root, aop
-            for _ in range(3):
+            quiet = 0
+            for _ in range(60):
                 ca.poll_all(0)
                 sim.sleep(0.001)
+                quiet = quiet + 1 if not ca._request_callbacks else 0
+                if quiet >= 3:
+                    break
             check_ledger(ledger)
             for nm, conn in (("A", ca), ("B", cb)):
                 if conn._request_callbacks:
+                    left = sorted(conn._request_callbacks)[:5]
                     raise core.Violation("callback-left", "%s: every request was answered but %d callbacks are still registered "
-                                         "(seqs %r)" % (nm, len(conn._request_callbacks), sorted(conn._request_callbacks)[:5]))
+                                         "(seqs %r); ledger entries of those: %r" % (nm, len(conn._request_callbacks), left,
+                                                                                     [e for e in ledger if e[2] in left][:8]))
             ca.close()
             sim.block(lambda: srv.state == core.DONE, 5, "wait-srv")
             return True
